@@ -20,7 +20,7 @@ open Node Raft Raft.CC RaftProps.C02 RaftProps.C05 Snap
 variable {cfg : JointConfig} {c0 : Nat} {h : List Sys}
 
 /-- a node that is leader after a step that moved its commit index has no pending snapshot -/
-theorem commit_step_pend (H : Hyp2 cfg c0 h) {n : Nat} {a b : Sys} (ha : h[n]? = some a)
+theorem commit_step_pend (H : Hyp2w cfg c0 h) {n : Nat} {a b : Sys} (ha : h[n]? = some a)
     (hb : h[n + 1]? = some b) {l : Nat} {sta stb : NState} (hla : a.node l = some sta)
     (hlb : b.node l = some stb) (hs : stb.raft.state = .leader)
     (hc : sta.raft.raftLog.committed < stb.raft.raftLog.committed) :
@@ -46,7 +46,7 @@ theorem commit_step_pend (H : Hyp2 cfg c0 h) {n : Nat} {a b : Sys} (ha : h[n]? =
 /-- **a released snapshot is a committed prefix**: a `MsgSnapshot` of the transport of `h[n]` names an
 index above `c0` that is covered by a commit event before `n` of a term not above the message's term,
 whose ghost log holds an entry of the snapshot's term at the snapshot's index -/
-theorem snap_msg_committed (H : Hyp3 cfg c0 h) {n : Nat} {a : Sys} (ha : h[n]? = some a)
+theorem snap_msg_committed (H : Hyp3a cfg c0 h) {n : Nat} {a : Sys} (ha : h[n]? = some a)
     {x : Message} (hx : x ∈ a.net) (hty : x.msgType = .msgSnapshot) :
     c0 < x.snapshot.metadata.index ∧
     ∃ E : Ev, E.ok h ∧ E.nE < n ∧ x.snapshot.metadata.index ≤ E.c ∧ E.t ≤ x.term ∧
@@ -61,7 +61,7 @@ theorem snap_msg_committed (H : Hyp3 cfg c0 h) {n : Nat} {a : Sys} (ha : h[n]? =
 point `i > c0` whose term `t` it knows — after the restoration of a snapshot, pending or installed, or
 after a restart —, then every node, in any state, whose commit index reaches `i` holds an entry of term
 `t` at `i` in its uncompacted log -/
-theorem snap_point_agree (H : Hyp3 cfg c0 h)
+theorem snap_point_agree (H : Hyp3a cfg c0 h)
     {m1 : Nat} {s1 : Sys} (hm1 : h[m1]? = some s1) {v1 : Nat} {st1 : NState}
     (hv1 : s1.node v1 = some st1) {t : Nat} (ht : st1.raft.raftLog.abs.snapTerm = some t)
     (hi : c0 < st1.raft.raftLog.abs.snapIdx)
@@ -69,7 +69,7 @@ theorem snap_point_agree (H : Hyp3 cfg c0 h)
     (hv2 : s2.node v2 = some st2)
     (hk2 : st1.raft.raftLog.abs.snapIdx ≤ st2.raft.raftLog.committed) :
     Has (FL h c0 st2) st1.raft.raftLog.abs.snapIdx t := by
-  have H2 := H.toHyp2
+  have H2 := H.toHyp2w
   have I1 := (ghost_inv H2 m1 s1 hm1).node v1 st1 hv1
   have o1 := node_ok H2 hm1 hv1
   obtain ⟨e, he, het⟩ := I1.log.sT t ht hi
@@ -77,7 +77,7 @@ theorem snap_point_agree (H : Hyp3 cfg c0 h)
 
 /-- what an entry of term `t` at `i` in the uncompacted log says about the real log: the entry, if the
 index is retained; the term of the snapshot point, if `i` is the snapshot point and its term is known -/
-theorem has_real (H : Hyp2 cfg c0 h) {m : Nat} {s : Sys} (hm : h[m]? = some s) {v : Nat} {st : NState}
+theorem has_real (H : Hyp2w cfg c0 h) {m : Nat} {s : Sys} (hm : h[m]? = some s) {v : Nat} {st : NState}
     (hv : s.node v = some st) {i t : Nat} (hh : Has (FL h c0 st) i t) :
     (st.raft.raftLog.abs.snapIdx < i → Has st.raft.raftLog.abs i t) ∧
     (st.raft.raftLog.abs.snapIdx = i → c0 < i → ∀ t', st.raft.raftLog.abs.snapTerm = some t' → t' = t) := by
